@@ -76,6 +76,9 @@ def run(index, tier="quick", seed=0) -> Result:
     if n < 4:
         raise AnalysisError("fewer than 4 implementations")
     from ..parallel import report as _copy1
+    from ..frame3 import check as _frame3
+    for cn_ in ("ConvexPolygon", "ConvexSpheropolygon"):
+        _frame3(res, index, cn_, ("distance_to_surface",))
     _copy1(res, index, lambda f: f['top'] in ('distance_to_surface', '_get_outward_unit_normal'))
     from ..dimscan import report_translation
     report_translation(res, sc, lambda func, path: any(p_.endswith(".distance_to_surface") for p_ in path[:1]) or func.endswith(".distance_to_surface"),
